@@ -144,3 +144,10 @@ package query
 //@   loop 2 invariant 0 <= $i && $i <= len(r2) && len(record) == len(r) + len(r2) && fresh(record) && leftLen == len(r) && forall(c, 0, len(r), record[c] == r[c]) && forall(c, 0, $i, record[len(r) + c] == r2[c])
 //@   loop 2 modifies record[*]
 //@   modifies nothing
+
+// C06: ANY over no row is FALSE and ALL over no row is TRUE, whatever the left-hand side is (also NULL): IN / NOT IN / ANY /
+// ALL over an empty sub-query
+//@ func InRowValueList
+//@   property C06
+//@   ensures [any-over-no-row-is-false-and-all-over-no-row-is-true] len(list) == 0 ==> result1 == nil && result0 == ite(matchType == parser.ANY, ternary.FALSE, ternary.TRUE)
+//@   modifies *
